@@ -1,7 +1,9 @@
 //! vsim: deterministic simulation with fault injection for rust-vfs (see /verif/DESIGN.md).
 #![allow(dead_code, unused_imports)]
 
+mod asyncsim;
 mod conc;
+mod mon_async;
 mod gen;
 mod harness;
 mod model;
